@@ -255,7 +255,7 @@ def gen_cases(rng, count, nmax):
 def run(rep):
     thorough = rep.tier == 'thorough'
     rng = rep.rng('c03')
-    cases = core.load_corpus('C03') + list(gen_cases(rng, 60000 if thorough else 2500, 200 if thorough else 12))
+    cases = core.load_corpus('C03') + list(gen_cases(rng, 24000 if thorough else 2500, 80 if thorough else 12))
     rep.rule = ('random tables of 2..N strictly monotone positive wavelengths (both orders, spacing 1e-6..1e5 A), values with zeros, '
                 'negatives and zero ends, keep_neg both, SourceSpectrum and SpectralElement; queries: knots, their binary64 '
                 'neighbours, midpoints, random interior points, points just and far outside; taper() with and without '
